@@ -59,6 +59,7 @@ func c19List(r *core.Result, vals []banderwagon.Element, block []int, desc strin
 		d := dirtyFr()
 		res[i] = &d
 	}
+	origRes := append([]*fr.Element(nil), res...) // the caller's own result variables
 	var merr error
 	if !guard(r, "c19.panic", "batch helpers", desc, func() {
 		cb = banderwagon.ElementsToBytes(els...)
@@ -87,6 +88,9 @@ func c19List(r *core.Result, vals []banderwagon.Element, block []int, desc strin
 		}
 		m := dirtyFr()
 		els[i].MapToScalarField(&m)
+		if res[i] != origRes[i] || !m.Equal(origRes[i]) {
+			vio(r, "c19.batch", "banderwagon.BatchMapToScalarField", desc, fmt.Sprintf("the caller's variable for slot %d receives MapToScalarField() = %s", i, frToBig(m).Text(16)), frToBig(*origRes[i]).Text(16))
+		}
 		if !m.Equal(res[i]) {
 			vio(r, "c19.batch", "banderwagon.BatchMapToScalarField", desc, fmt.Sprintf("[%d] = MapToScalarField() = %s", i, frToBig(m).Text(16)), frToBig(*res[i]).Text(16))
 		}
